@@ -59,7 +59,7 @@ theorem C09_run_sections (ho : GuessOpts o pname) (hreal : o.dryRun = false) (hs
     (hnotin : ∀ j ∈ js, name ≠ j.name) (htarget : s0.fs.lookup name = some (.file bytes m)) (hw : m &&& writeMask ≠ 0) :
     (runPatch o s0).1 = 2 ∧
     (∀ j ∈ js, (runPatch o s0).2.fs.lookup j.name =
-      some (.file (renderLines o.newlineOutput (splice (splitLines j.bytes) 0 j.sec.hs)) j.m)) ∧
+      some (.file (Render.renderText o.newlineOutput (splice (splitLines j.bytes) 0 j.sec.hs)) j.m)) ∧
     (runPatch o s0).2.fs.lookup name = some (.file bytes m) ∧
     (∀ q, (∀ j ∈ js, q ≠ j.name) → (runPatch o s0).2.fs.lookup q = s0.fs.lookup q) := by
   obtain ⟨h1, h2⟩ := runPatch_jobs_abort ho hreal hs0 hpn hpd js b bodyBytes e pm name bytes m hpatch hok htext htg hpw hm hb hbt
@@ -91,7 +91,7 @@ theorem C09_run_two (ho : GuessOpts o pname) (hreal : o.dryRun = false) (hs0 : C
     (hv1 : Valid (splitLines bytes1) 0 0 hs1)
     (hpatch : s0.fs.lookup pname = some (.file (patchText f0 old1 new1 oldt1 newt1 hs1 ++ b.text bodyBytes) pm)) :
     (runPatch o s0).1 = 2 ∧
-    (runPatch o s0).2.fs.lookup name1 = some (.file (renderLines o.newlineOutput (splice (splitLines bytes1) 0 hs1)) m1) ∧
+    (runPatch o s0).2.fs.lookup name1 = some (.file (Render.renderText o.newlineOutput (splice (splitLines bytes1) 0 hs1)) m1) ∧
     (runPatch o s0).2.fs.lookup name2 = some (.file bytes2 m2) ∧
     ∀ q, q ≠ name1 → (runPatch o s0).2.fs.lookup q = s0.fs.lookup q := by
   obtain ⟨k1, t1⟩ := job_ok (o := o) hd1 hn1 hold1 hstrip1 hw1 hv1
@@ -177,7 +177,7 @@ theorem C09_run_two_damaged (ho : GuessOpts o pname) (hreal : o.dryRun = false) 
     (hpatch : s0.fs.lookup pname = some (.file
       (patchText f0 old1 new1 oldt1 newt1 hs1 ++ (patchText f1 old2 new2 oldt2 newt2 (hs2 ++ [cutHunk hd k]) ++ Xbytes)) pm)) :
     (runPatch o s0).1 = 2 ∧
-    (runPatch o s0).2.fs.lookup name1 = some (.file (renderLines o.newlineOutput (splice (splitLines bytes1) 0 hs1)) m1) ∧
+    (runPatch o s0).2.fs.lookup name1 = some (.file (Render.renderText o.newlineOutput (splice (splitLines bytes1) 0 hs1)) m1) ∧
     (runPatch o s0).2.fs.lookup name2 = some (.file bytes2 m2) ∧
     ∀ q, q ≠ name1 → (runPatch o s0).2.fs.lookup q = s0.fs.lookup q := by
   have hwa : ∀ h ∈ hs2, h.writable = true := fun h hh => hd2.writable h (List.mem_append_left _ hh)
@@ -220,7 +220,7 @@ theorem C09_run_two_truncated (ho : GuessOpts o pname) (hreal : o.dryRun = false
     (hpatch : s0.fs.lookup pname = some (.file
       (patchText f0 old1 new1 oldt1 newt1 hs1 ++ patchText f1 old2 new2 oldt2 newt2 (hs2 ++ [cutHunk hd k])) pm)) :
     (runPatch o s0).1 = 2 ∧
-    (runPatch o s0).2.fs.lookup name1 = some (.file (renderLines o.newlineOutput (splice (splitLines bytes1) 0 hs1)) m1) ∧
+    (runPatch o s0).2.fs.lookup name1 = some (.file (Render.renderText o.newlineOutput (splice (splitLines bytes1) 0 hs1)) m1) ∧
     (runPatch o s0).2.fs.lookup name2 = some (.file bytes2 m2) ∧
     ∀ q, q ≠ name1 → (runPatch o s0).2.fs.lookup q = s0.fs.lookup q := by
   refine C09_run_two_damaged (pm := pm) (k := k) ho hreal hs0 hpn hpd hd1 hd2 hk0 hmk [] .invalidArgument ?_ hn1 hn2 hdist hold1 hstrip1 hold2
@@ -253,7 +253,7 @@ theorem C09_run_two_garbled (ho : GuessOpts o pname) (hreal : o.dryRun = false) 
       (patchText f0 old1 new1 oldt1 newt1 hs1 ++
         (patchText f1 old2 new2 oldt2 newt2 (hs2 ++ [cutHunk hd k]) ++ (junk ++ NL :: afterBytes))) pm)) :
     (runPatch o s0).1 = 2 ∧
-    (runPatch o s0).2.fs.lookup name1 = some (.file (renderLines o.newlineOutput (splice (splitLines bytes1) 0 hs1)) m1) ∧
+    (runPatch o s0).2.fs.lookup name1 = some (.file (Render.renderText o.newlineOutput (splice (splitLines bytes1) 0 hs1)) m1) ∧
     (runPatch o s0).2.fs.lookup name2 = some (.file bytes2 m2) ∧
     ∀ q, q ≠ name1 → (runPatch o s0).2.fs.lookup q = s0.fs.lookup q := by
   refine C09_run_two_damaged (pm := pm) (k := k) ho hreal hs0 hpn hpd hd1 hd2 hk0 hmk (junk ++ NL :: afterBytes) .parserError ?_ hn1 hn2 hdist
@@ -303,7 +303,7 @@ theorem truncated_applies :
     (flat_ne_devNull (by decide)) (stripPath_flat (by decide) (by decide))
     (bytes1 := bytesF) (m1 := 0o644) rfl (by decide) (bytes2 := bytesG) (m2 := 0o600) rfl (by decide)
     (validB_sound _ _ _ _ (by decide)) rfl
-  have r1 : renderLines o.newlineOutput (splice (splitLines bytesF) 0 [hkF]) = [97, 10, 66, 10, 99, 10] := by decide
+  have r1 : Render.renderText o.newlineOutput (splice (splitLines bytesF) 0 [hkF]) = [97, 10, 66, 10, 99, 10] := by decide
   rw [r1] at h
   exact h
 
@@ -338,7 +338,7 @@ theorem garbled_applies :
     (flat_ne_devNull (by decide)) (stripPath_flat (by decide) (by decide))
     (bytes1 := bytesF) (m1 := 0o644) rfl (by decide) (bytes2 := bytesG) (m2 := 0o600) rfl (by decide)
     (validB_sound _ _ _ _ (by decide)) rfl
-  have r1 : renderLines o.newlineOutput (splice (splitLines bytesF) 0 [hkF]) = [97, 10, 66, 10, 99, 10] := by decide
+  have r1 : Render.renderText o.newlineOutput (splice (splitLines bytesF) 0 [hkF]) = [97, 10, 66, 10, 99, 10] := by decide
   rw [r1] at h
   exact h
 
@@ -376,7 +376,7 @@ theorem garbled_second_hunk_applies :
     (flat_ne_devNull (by decide)) (stripPath_flat (by decide) (by decide))
     (bytes1 := bytesF) (m1 := 0o644) rfl (by decide) (bytes2 := bytes') (m2 := 0o640) rfl (by decide)
     (validB_sound _ _ _ _ (by decide)) rfl
-  have r1 : renderLines o.newlineOutput (splice (splitLines bytesF) 0 [hkF]) = [97, 10, 66, 10, 99, 10] := by decide
+  have r1 : Render.renderText o.newlineOutput (splice (splitLines bytesF) 0 [hkF]) = [97, 10, 66, 10, 99, 10] := by decide
   rw [r1] at h
   exact h
 
